@@ -182,7 +182,7 @@ func c18Case(w *core.W, in []byte, entry string) {
 			w.Violate(bv("example-matches", entry, in, "Example() failed: "+errStr(e2), map[string]string{"how": "error"}))
 		} else if !re.Match(ex) {
 			exampleOK = false
-			w.Violate(bv("example-matches", entry, in, fmt.Sprintf("Example()=%q is not matched by %q", ex, pattern), map[string]string{"how": "no-match", "anchors": fmt.Sprint(strings.ContainsAny(pattern, "^$"))}))
+			w.Violate(bv("example-matches", entry, in, fmt.Sprintf("Example()=%q is not matched by %q", ex, pattern), map[string]string{"how": "no-match", "anchors": fmt.Sprint(c18HasAssertion(pattern))}))
 		}
 	} else {
 		w.Class("unsatisfiable-within-3")
@@ -200,7 +200,7 @@ func c18Case(w *core.W, in []byte, entry string) {
 				break
 			}
 			if ea != nil || !re.Match(a) {
-				w.Violate(bv("example-matches", entry, in, fmt.Sprintf("seed %d: Example()=%q err=%v is not matched by %q", seed, a, ea, pattern), map[string]string{"how": "seeded", "anchors": fmt.Sprint(strings.ContainsAny(pattern, "^$"))}))
+				w.Violate(bv("example-matches", entry, in, fmt.Sprintf("seed %d: Example()=%q err=%v is not matched by %q", seed, a, ea, pattern), map[string]string{"how": "seeded", "anchors": fmt.Sprint(c18HasAssertion(pattern))}))
 				break
 			}
 			if eb != nil || string(a) != string(b) {
@@ -223,7 +223,7 @@ func c18Case(w *core.W, in []byte, entry string) {
 		w.Class("as-user-type-skipped:example-does-not-match")
 		return
 	}
-	for _, inst := range c18Instances {
+	for idx, inst := range c18Instances {
 		w.S.Evaluations++
 		lit, _ := stdjson.Marshal(inst)
 		root := jschema.New("root", string(lit)+` // {type: "@r"}`)
@@ -231,6 +231,15 @@ func c18Case(w *core.W, in []byte, entry string) {
 		if rec, site := guard(func() {
 			aerr = root.AddType("@r", jregex.New("re", in))
 			if aerr == nil {
+				// other work between the registration and the check: a second regex
+				// type, and an example built by another schema
+				if idx == 0 { // for the first instance of every pattern
+					if e := root.AddType("@other", jregex.New("other", `/x+y{2}z/`)); e != nil {
+						aerr = e
+						return
+					}
+					_, _ = jschema.New("busy", "{\n\t\"k\": [\n\t\t1,\n\t\t\"two\"\n\t]\n}").Example()
+				}
 				cerr = root.Check()
 			}
 		}); rec != nil {
@@ -249,7 +258,32 @@ func c18Case(w *core.W, in []byte, entry string) {
 	}
 }
 
+// c18Extra: patterns outside the token alphabet that stress the example generator
+// (negated classes up to the ends of the code space, word-boundary assertions,
+// counted repetitions, non-greedy and nested groups).
+var c18Extra = []string{`/[^\x00-\x7f]/`, `/[^\x00-\x{10FFFF}]/`, `/[^a]/`, `/[^\x00-\x{10FFFE}]/`, `/\Ba/`, `/\b/`, `/a\bb/`, `/a{0}/`, `/a{2,}/`, `/(a|b){3}?/`, `/((a)|(b)*)+/`,
+	`/\pL/`, `/\PL/`, `/[[:alpha:]]/`, `/[^[:ascii:]]/`, `/(?i)ab/`, `/(?s)./`, `/\x{10FFFF}/`, `/\Q.\E/`, `/a*?b+?c??/`, `/.{0,1000}/`, `/\d\D\s\S\w\W/`}
+
+// c18HasAssertion: the pattern contains an anchor or another zero-width assertion (the
+// example generator ignores all of them: KF-C18-anchored-example).
+func c18HasAssertion(pattern string) bool {
+	if strings.ContainsAny(pattern, "^$") {
+		return true
+	}
+	for _, a := range []string{`\b`, `\B`, `\A`, `\z`} {
+		if strings.Contains(pattern, a) {
+			return true
+		}
+	}
+	return false
+}
+
 func c18Run(w *core.W) {
+	if w.Shard == 0 {
+		for _, t := range c18Extra {
+			c18Case(w, []byte(t), "extra")
+		}
+	}
 	e := &seq.Enum{Tokens: c18Tokens, N: c18N(w.Tier), W: w}
 	e.Run(func(s []byte, ntok int, own bool) bool {
 		if own {
